@@ -235,7 +235,7 @@ theorem sub_roundtrip (t : Bool) (s : Sub) (h : s.WF) (hside : s.side = none) (n
     have hnote' : Q.get? s'.feat.quals "note" = Q.get? (finalQuals s.feat (subX s num ce)) "note" := by
       rw [e11, look]; simp [subReserved]
     have hwf' : s'.feat.WF := by
-      refine ⟨e10, ?_, ?_, fun _ => e8, by rw [e5]; exact h.feat.parts⟩
+      refine ⟨e10, ?_, ?_, fun _ => e8, by rw [e5]; exact h.feat.parts, fun c l' hc _ => by rw [e9] at hc; cases hc⟩
       · rw [e11]; simp [subReserved, l_codon]
       · rw [hnote']
         have := get?_FQ_noteX s.feat _ hX h.byAS h.codon hnoteX h.feat
@@ -267,7 +267,7 @@ theorem sub_roundtrip (t : Bool) (s : Sub) (h : s.WF) (hside : s.side = none) (n
         simp [hr.1, hr.2.1, hr.2.2.2.1, hr.2.2.2.2]
   · refine ⟨?_, e8, e9, e6, ?_, by rw [e2]; exact h.plainTool⟩
     · -- as above
-      refine ⟨e10, ?_, ?_, fun _ => e8, by rw [e5]; exact h.feat.parts⟩
+      refine ⟨e10, ?_, ?_, fun _ => e8, by rw [e5]; exact h.feat.parts, fun c l' hc _ => by rw [e9] at hc; cases hc⟩
       · rw [e11]; simp [subReserved, l_codon]
       · have hnoteX : Q.get? (subX s num ce) "note" = none := by rw [get?_subX]; simp
         have hnote' : Q.get? s'.feat.quals "note" = Q.get? (finalQuals s.feat (subX s num ce)) "note" := by
@@ -456,7 +456,7 @@ theorem proto_roundtrip (t : Bool) (p : Proto) (h : p.WF) (hside : p.side = none
     have hnote' : Q.get? Lf "note" = Q.get? (finalQuals p.feat (protoX p num ce)) "note" := by
       rw [hLf_get, look]; simp [protoReserved]
     have hwf' : Feat.WF { loc := p.feat.loc, type := "protocluster", notes := [], quals := Lf, byAS := true, codon := none } := by
-      refine ⟨hLfn, hcodf, ?_, fun _ => rfl, h.feat.parts⟩
+      refine ⟨hLfn, hcodf, ?_, fun _ => rfl, h.feat.parts, fun c l' hc _ => by cases hc⟩
       show Q.get? Lf "note" ≠ some []
       rw [hnote']
       have := get?_FQ_noteX p.feat _ hX h.byAS h.codon hnoteX h.feat
@@ -491,7 +491,7 @@ theorem proto_roundtrip (t : Bool) (p : Proto) (h : p.WF) (hside : p.side = none
     · have hnoteX : Q.get? (protoX p num ce) "note" = none := by rw [get?_protoX, get?_common]; simp
       have hnote' : Q.get? Lf "note" = Q.get? (finalQuals p.feat (protoX p num ce)) "note" := by
         rw [hLf_get, look]; simp [protoReserved]
-      refine ⟨hLfn, hcodf, ?_, fun _ => rfl, h.feat.parts⟩
+      refine ⟨hLfn, hcodf, ?_, fun _ => rfl, h.feat.parts, fun c l' hc _ => by cases hc⟩
       show Q.get? Lf "note" ≠ some []
       rw [hnote']
       have := get?_FQ_noteX p.feat _ hX h.byAS h.codon hnoteX h.feat
